@@ -290,6 +290,12 @@ func c01(w *core.World, r *core.Report) {
 		}
 	}
 
+	// ---- ALL-ACTORS-EXCLUDED (shared with C08): precedence among the cases of a choice
+	if pop := w.Func("pkg/tree", "sharedEntryAttributes", "populateChoiceCaseResolvers"); pop != nil {
+		r.Rule("ALL-ACTORS-EXCLUDED", 4, "(shared with C08) below a choice the winner is selected among the live intents only: the stored (about to be replaced) content of EVERY intent of the transaction is kept out of the index lookup that feeds the case priorities - one exclude filter per acting owner, or one filter rejecting an update of any of them. With an any/all mix-up a transaction of two intents excludes nothing and an intent that changes case is beaten by its own stale entry.")
+		ruleAllActorsExcluded(w, r, pop, low)
+	}
+
 	// ---- CONSULTS
 	r.Rule("CONSULTS", 30, "decision-input table: the result of each delete / precedence decision function has, in its backward slice (data + control dependence, repository callees followed to depth 2), every input listed for it (frozen table, one reason per input). Decides: no input of these decisions was dropped; not that they are combined correctly.")
 	for _, t := range c01Consults {
